@@ -1,3 +1,205 @@
-(* Proofs about Codec/Model_RepDef.v *)
+(* Proofs about Codec/Model_RepDef.v.
+
+   Structure:
+   1. Spec: a model-independent description of what a stack of builder calls MEANS ([spec_layers]):
+      per layer the effective validity (AND-ed with the enclosing layers) and the normalized offsets.
+   2. Abstract serializer on tagged entries ([ent], [sv], [slist]); refinement of the buffer-level model
+      ([record_layers] on [ctx]) to it (Theorem A).
+   3. Unraveler: per-layer lemmas and the round trip by induction on the stack (Theorem B).
+   4. Known-finding classes and the main theorem.
+   5. Control words.  *)
 From LanceV Require Import Common.Base Codec.Model_RepDef.
 Local Open Scope N_scope.
+
+(* ============================================================================================== *)
+(* 0. small generic lemmas                                                                          *)
+
+Lemma bind_ok {A B} (x : outcome A) (f : A -> outcome B) (b : B) :
+  bind x f = Ok b -> exists a, x = Ok a /\ f a = Ok b.
+Proof. destruct x; cbn; intros H; try discriminate. eauto. Qed.
+
+Lemma assert_true b : assert_ b = Ok tt <-> b = true.
+Proof. destruct b; cbn; split; intros; congruence. Qed.
+
+Lemma repeat_app_comm {A} (x : A) n l : repeat x n ++ x :: l = x :: repeat x n ++ l.
+Proof. induction n; cbn; [reflexivity|]. rewrite IHn. reflexivity. Qed.
+
+Lemma rev_repeat {A} (x : A) n : rev (repeat x n) = repeat x n.
+Proof.
+  induction n; cbn; [reflexivity|]. rewrite IHn.
+  replace (repeat x n ++ [x]) with (repeat x n ++ x :: []) by reflexivity.
+  rewrite repeat_app_comm, app_nil_r. reflexivity.
+Qed.
+
+(* ============================================================================================== *)
+(* 1. Spec                                                                                          *)
+
+Fixpoint map2 {A B C} (f : A -> B -> C) (l1 : list A) (l2 : list B) : list C :=
+  match l1, l2 with
+  | a :: t1, b :: t2 => f a b :: map2 f t1 t2
+  | _, _ => []
+  end.
+
+Fixpoint prefix_sums (acc : N) (l : list N) : list N :=
+  match l with [] => [acc] | x :: t => acc :: prefix_sums (acc + x) t end.
+
+Fixpoint sorted (l : list N) : bool :=
+  match l with
+  | a :: ((b :: _) as t) => (a <=? b) && sorted t
+  | _ => true
+  end.
+
+(* per list: (valid, normalized length) *)
+Definition list_info (offs : list N) (v : option (list bool)) : list (bool * N) :=
+  let lens := windows_len offs in
+  match v with
+  | Some vs => map2 (fun b l => (b, if b then l else 0)) vs lens
+  | None => map (fun l => (true, l)) lens
+  end.
+
+(* [mask]: for every slot of the layer, whether all enclosing layers are valid there.
+   Returns the per-layer outputs, outermost first; None if the calls are not well formed. *)
+Fixpoint spec_layers (mask : list bool) (cs : list call) : option (list layer_out) :=
+  match cs with
+  | [] => Some []
+  | CValidity v :: cs' =>
+      if Nat.eqb (length v) (length mask) then
+        let eff := map2 andb mask v in
+        option_map (cons (Some eff, None)) (spec_layers eff cs')
+      else None
+  | CNoNull n :: cs' =>
+      if Nat.eqb n (length mask) then option_map (cons (None, None)) (spec_layers mask cs') else None
+  | COffsets offs v :: cs' =>
+      let info := list_info offs v in
+      if sorted offs && Nat.eqb (length offs) (S (length mask))
+         && match v with Some vs => Nat.eqb (length vs) (length mask) | None => true end
+         (* lists behind a null ancestor are empty once normalized *)
+         && forallb (fun '(m, (_, len)) => m || (len =? 0)) (combine mask info)
+      then
+        let norm := prefix_sums 0 (map snd info) in
+        let items := N.to_nat (last norm 0) in
+        option_map (cons (option_map (fun _ => map2 andb mask (map fst info)) v, Some norm))
+                   (spec_layers (repeat true items) cs')
+      else None
+  | CFsl v dim n :: cs' =>
+      if Nat.eqb n (length mask) && match v with Some vs => Nat.eqb (length vs) n | None => true end then
+        let eff := match v with Some vs => map2 andb mask vs | None => mask end in
+        option_map (cons (option_map (fun _ => eff) v, None))
+                   (spec_layers (flat_map (fun b => repeat b dim) eff) cs')
+      else None
+  end.
+
+Definition call_slots (c : call) : nat :=
+  match c with
+  | CValidity v => length v | CNoNull n => n | COffsets offs _ => (length offs - 1)%nat | CFsl _ _ n => n
+  end.
+
+Definition spec_top (cs : list call) : option (list layer_out) :=
+  match cs with
+  | [] => None
+  | c :: _ => spec_layers (repeat true (call_slots c)) cs
+  end.
+
+(* ============================================================================================== *)
+(* 2. Abstract serializer                                                                           *)
+
+Inductive ent := Slot (r d : N) | Spec (r d : N).
+
+Definition e_rep (e : ent) : N := match e with Slot r _ | Spec r _ => r end.
+Definition e_def (e : ent) : N := match e with Slot _ d | Spec _ d => d end.
+Definition enc_def (e : ent) : N := match e with Slot _ d => d | Spec _ d => d + SPECIAL_THRESHOLD end.
+Definition is_slot (e : ent) : bool := match e with Slot _ _ => true | Spec _ _ => false end.
+
+Definition slots (es : list ent) : nat := length (filter is_slot es).
+Definition specs (es : list ent) : nat := length (filter (fun e => negb (is_slot e)) es).
+
+(* do_record_validity *)
+Fixpoint sv (vs : list bool) (nl : N) (es : list ent) : list ent :=
+  match es with
+  | [] => []
+  | Spec r d :: t => Spec r d :: sv vs nl t
+  | Slot r d :: t =>
+      match vs with
+      | v :: vs' => Slot r (if (d =? 0) && negb v then nl else d) :: sv vs' nl t
+      | [] => Slot r d :: sv [] nl t
+      end
+  end.
+
+(* the record_offsets loop *)
+Fixpoint so (lens : list N) (rl el : N) (es : list ent) : list ent :=
+  match es with
+  | [] => []
+  | Spec r d :: t => Spec r d :: so lens rl el t
+  | Slot r d :: t =>
+      match lens with
+      | len :: lens' =>
+          let ll := if r =? 0 then rl else r in
+          (if (d =? 0) && (0 <? len) then Slot ll 0 :: repeat (Slot 0 0) (N.to_nat (len - 1))
+           else if d =? 0 then [Spec ll el]
+           else [Spec ll d]) ++ so lens' rl el t
+      | [] => Slot r d :: so [] rl el t
+      end
+  end.
+
+(* multiply_levels *)
+Fixpoint sm (m : nat) (es : list ent) : list ent :=
+  match es with
+  | [] => []
+  | Spec r d :: t => Spec r d :: sm m t
+  | Slot r d :: t => repeat (Slot r d) m ++ sm m t
+  end.
+
+(* abstract context: entries, current_rep, current_def, meanings (outer first) *)
+Definition astate := (list ent * N * N * list meaning)%type.
+
+Definition a_validity (v : option (list bool)) (st : astate) : astate :=
+  let '(es, cr, cd, ms) := st in
+  match v with
+  | Some vs => (sv vs cd es, cr, cd - 1, ms ++ [NullableItem])
+  | None => (es, cr, cd, ms ++ [AllValidItem])
+  end.
+
+Definition a_layer (r : raw) (st : astate) : astate :=
+  match r with
+  | RValidity v _ => a_validity v st
+  | RFsl v dim _ => let '(es, cr, cd, ms) := a_validity v st in (sm dim es, cr, cd, ms)
+  | ROffsets o v he _ _ =>
+      let '(es, cr, cd, ms) := st in
+      let '(m, nl, el) :=
+        match is_some v, he with
+        | true, true => (NullableAndEmptyableList, cd - 1, cd)
+        | true, false => (NullableList, cd, 0)
+        | false, true => (EmptyableList, 0, cd)
+        | false, false => (AllValidList, 0, 0)
+        end in
+      let es1 := match v with Some vs => sv vs nl es | None => es end in
+      (so (windows_len o) cr el es1, cr - 1, cd - num_def_levels m, ms ++ [m])
+  end.
+
+Definition a_layers (rs : list raw) (st : astate) : astate := fold_left (fun s r => a_layer r s) rs st.
+
+Definition a_init (rows : nat) (rs : list raw) : astate :=
+  (repeat (Slot 0 0) rows, sumN (map raw_max_rep rs), sumN (map raw_max_def rs), []).
+
+(* the serialized output the abstract state denotes *)
+Definition a_serialized (rs : list raw) (st : astate) : serialized :=
+  let '(es, _, _, ms) := st in
+  let max_rep := sumN (map raw_max_rep rs) in
+  let max_def := sumN (map raw_max_def rs) in
+  serialized_new (if 0 <? max_rep then Some (map e_rep es) else None)
+                 (if 0 <? max_def then Some (map e_def es) else None)
+                 (rev ms).
+
+(* raw layer of a call given the builder length so far (what apply_call pushes) *)
+Definition raw_of_call (c : call) : raw :=
+  match c with
+  | CValidity v => RValidity (Some v) (length v)
+  | CNoNull n => RValidity None n
+  | CFsl v dim n => RFsl v dim n
+  | COffsets offs v =>
+      let info := list_info offs v in
+      let norm := prefix_sums 0 (map snd info) in
+      let sp := length (filter (fun '(b, l) => negb b || (l =? 0)) info) in
+      let he := existsb (fun '(b, l) => b && (l =? 0)) info in
+      ROffsets norm v he (length norm - 1) sp
+  end.
